@@ -213,8 +213,14 @@ def run_model_cases(imports, runner, terms, tag, shard=400, scope="N_scope", mem
             pass
 
     def one(p):
-        pr = subprocess.run(["coqc", "-noglob", "-Q", os.path.join(COQ, "theories"), "Axv", "-w", "none", p],
-                            cwd=d, timeout=3600, preexec_fn=pre, stdout=subprocess.PIPE, stderr=subprocess.STDOUT, text=True)
+        for attempt in range(3):
+            pr = subprocess.run(["coqc", "-noglob", "-Q", os.path.join(COQ, "theories"), "Axv", "-w", "none", p],
+                                cwd=d, timeout=3600, preexec_fn=pre, stdout=subprocess.PIPE, stderr=subprocess.STDOUT, text=True)
+            if pr.returncode >= 0:
+                break
+            # killed by a signal (the kernel's out-of-memory killer when other jobs share the machine): not a verdict
+            # about the model or the code - evaluate the shard again once the pressure is gone
+            time.sleep(30 * (attempt + 1))
         out = pr.stdout
         if pr.returncode != 0:
             raise RuntimeError("model evaluation failed for %s:\n%s" % (p, out[-3000:]))
